@@ -129,10 +129,24 @@ class Report:
             data = json.load(fh)
         return [f for f in data.get("findings", []) if f.get("property") == self.pid]
 
+    def match_known(self):
+        """Attach known-finding entries to the violations they list (idempotent)."""
+        known = self._load_known()
+        used = set()
+        for ob in self.obs:
+            if ob.status == VIOLATION:
+                ob.known = None
+                for k in known:
+                    if (k.get("rule") == ob.rule and k.get("function") == ob.func
+                            and norm_src(k.get("construct", "")) == ob.construct):
+                        ob.known = k
+                        used.add(k.get("id"))
+                        break
+        return known, used
+
     def finish(self, write=True, evidence_dir=None, quiet=False) -> int:
         out = []
-        known = self._load_known()
-        used_known = set()
+        known, used_known = self.match_known()
         # floors: a rule that matched fewer instances than confirmed by hand is broken analysis
         counts: Dict[str, int] = {}
         for ob in self.obs:
@@ -142,17 +156,7 @@ class Report:
             if counts.get(r, 0) < fl:
                 self.errors.append("rule %s matched %d instance(s), floor is %d (an anchor moved or vanished; the rule would pass vacuously)"
                                    % (r, counts.get(r, 0), fl))
-        viols = []
-        for ob in self.obs:
-            if ob.status == VIOLATION:
-                for k in known:
-                    if (k.get("rule") == ob.rule and k.get("function") == ob.func
-                            and norm_src(k.get("construct", "")) == ob.construct):
-                        ob.known = k
-                        used_known.add(k.get("id"))
-                        break
-                if ob.known is None:
-                    viols.append(ob)
+        viols = [ob for ob in self.obs if ob.status == VIOLATION and ob.known is None]
         undec = [ob for ob in self.obs if ob.status == UNDECIDED]
         for ob in undec:
             self.errors.append("UNDECIDED %s %s: %s (%s)" % (ob.rule, ob.func, ob.construct[:120], ob.detail))
